@@ -601,3 +601,155 @@ theorem map_calcPerm (order sizes : List Nat) :
 
 end cast
 end QM.C07
+
+namespace QM.C07
+/-! ## orthogonality of the vec-permutation matrices -/
+section ortho
+variable {K : Type} [CommSemiring K]
+
+theorem mat_mul_assoc {a b c d : Nat} (A : Mat K a b) (B : Mat K b c) (C : Mat K c d) :
+    (A.mul B).mul C = A.mul (B.mul C) := by
+  apply Mat.toM_injective; simp [Matrix.mul_assoc]
+
+theorem mat_transpose_mul {a b c : Nat} (A : Mat K a b) (B : Mat K b c) :
+    (A.mul B).transpose = B.transpose.mul A.transpose := by
+  apply Mat.toM_injective; simp [Matrix.transpose_mul]
+
+theorem mat_one_mul {a b : Nat} (A : Mat K a b) : (Mat.one : Mat K a a).mul A = A := by
+  apply Mat.toM_injective; simp
+
+theorem mat_one_transpose {a : Nat} : (Mat.one : Mat K a a).transpose = Mat.one := by
+  apply Mat.toM_injective; simp
+
+theorem kron_transpose {a b c d : Nat} (A : Mat K a b) (B : Mat K c d) :
+    (kron A B).transpose = kron A.transpose B.transpose := by
+  apply Mat.ext'; intro i j; simp [kron, Mat.transpose]
+
+theorem kron_mul_kron {a b c d e f : Nat} (A : Mat K a b) (B : Mat K c d) (C : Mat K b e) (D : Mat K d f) :
+    (kron A B).mul (kron C D) = kron (A.mul C) (B.mul D) := by
+  apply Mat.ext'; intro i j
+  simp only [Mat.mul, kron, Mat.get_ofFn, fsum_eq_sum]
+  rw [sum_fin_mul]
+  simp only [fdiv_pair, fmod_pair]
+  rw [Finset.sum_mul_sum]
+  apply Finset.sum_congr rfl; intro p _
+  apply Finset.sum_congr rfl; intro q _
+  ring
+
+theorem kron_one_one (a b : Nat) : kron (Mat.one : Mat K a a) (Mat.one : Mat K b b) = Mat.one := by
+  apply Mat.ext'; intro i j
+  simp only [kron, Mat.one, Mat.get_ofFn]
+  by_cases h : i = j
+  · subst h; simp
+  · have : ¬ (fdiv i = fdiv j ∧ fmod i = fmod j) := by
+      intro ⟨h1, h2⟩
+      apply h
+      rw [← pair_fdiv_fmod i, ← pair_fdiv_fmod j, h1, h2]
+    by_cases h1 : fdiv i = fdiv j <;> by_cases h2 : fmod i = fmod j <;> simp_all
+
+/-- the commutation matrix is orthogonal: `K(a,b)ᵀ K(a,b) = 1` -/
+theorem Kmat_orthogonal (a b : Nat) : (Kmat (K := K) a b).transpose.mul (Kmat a b) = Mat.one := by
+  apply Mat.ext'; intro c c'
+  simp only [Mat.mul, Mat.transpose, Mat.get_ofFn, fsum_eq_sum, Kmat_entry, Mat.one]
+  rw [sum_fin_mul]
+  simp only [fdiv_pair, fmod_pair]
+  rw [Finset.sum_eq_single (fmod c)]
+  · rw [Finset.sum_eq_single (fdiv c)]
+    · by_cases h : c = c'
+      · subst h; simp
+      · have : ¬ (fdiv c' = fdiv c ∧ fmod c' = fmod c) := by
+          intro ⟨h1, h2⟩
+          apply h
+          rw [← pair_fdiv_fmod c, ← pair_fdiv_fmod c', h1, h2]
+        by_cases h1 : fdiv c' = fdiv c <;> by_cases h2 : fmod c' = fmod c <;> simp_all
+    · intro y _ hy; simp [Ne.symm hy]
+    · simp
+  · intro x _ hx
+    apply Finset.sum_eq_zero; intro y _
+    simp [Ne.symm hx]
+  · simp
+
+/-- `AᵀA = 1` for a run-time-sized matrix -/
+def DMat.IsOrtho (A : DMat K) : Prop := A.m.transpose.mul A.m = Mat.one
+
+theorem eye_ortho (n : Nat) : (DMat.eye n : DMat K).IsOrtho := by
+  simp [DMat.IsOrtho, DMat.eye, mat_one_transpose, mat_one_mul]
+
+theorem kron_ortho (A B : DMat K) (hA : A.IsOrtho) (hB : B.IsOrtho) : (A.kron B).IsOrtho := by
+  unfold DMat.IsOrtho DMat.kron at *
+  simp only
+  rw [kron_transpose, kron_mul_kron, hA, hB, kron_one_one]
+
+theorem mul_ortho (A B C : DMat K) (h : A.mul B = .ok C) (hA : A.IsOrtho) (hB : B.IsOrtho) : C.IsOrtho := by
+  obtain ⟨ar, ac, am⟩ := A
+  obtain ⟨br, bc, bm⟩ := B
+  unfold DMat.mul at h
+  simp only at h
+  split at h
+  · rename_i hc
+    subst hc
+    injection h with h; subst h
+    unfold DMat.IsOrtho at *
+    simp only at *
+    rw [mat_transpose_mul, mat_mul_assoc, ← mat_mul_assoc am.transpose, hA, mat_one_mul, hB]
+  · cases h
+
+end ortho
+end QM.C07
+
+namespace QM.C07
+section intertwine
+variable {K : Type} [CommSemiring K]
+
+/-- `Pᵀ (P x) = x` for an orthogonal run-time-sized matrix -/
+theorem transpose_mulVecL_of_ortho (P : DMat K) (hP : P.IsOrtho) (x y : List K) (h : P.mulVecL x = .ok y) :
+    P.transpose.mulVecL y = .ok x := by
+  obtain ⟨r, c, m⟩ := P
+  unfold DMat.mulVecL at h
+  simp only at h
+  cases hl : DMat.toList? x c with
+  | none => simp [hl] at h
+  | some w =>
+    simp only [hl] at h
+    injection h with h; subst h
+    have hx : x = w.toList := by
+      unfold DMat.toList? at hl
+      split at hl
+      · injection hl with hl; subst hl; simp [Vector.toList]
+      · cases hl
+    unfold DMat.mulVecL DMat.transpose
+    simp only
+    have : DMat.toList? (m.mulVec w).toList r = some (m.mulVec w) := by simp [DMat.toList?, Vector.toList]
+    rw [this]
+    simp only
+    rw [← mat_mulVec_mulVec]
+    unfold DMat.IsOrtho at hP
+    simp only at hP
+    rw [hP, one_mulVec, hx]
+
+end intertwine
+
+/-- the loop of `calc_permutation_matrix` never changes the number of columns of the accumulated matrix -/
+theorem calcPermLoop_cols {K : Type} [Add K] [Mul K] [Zero K] [One K]
+    (lp : Nat → List Nat → Except Err (DMat K)) (fuel : Nat) (order sizes : List Nat) (perm P : DMat K)
+    (o s : List Nat) (h : calcPermLoop lp fuel order sizes perm = .ok (P, o, s)) : P.c = perm.c := by
+  induction fuel generalizing order sizes perm with
+  | zero => simp [calcPermLoop] at h
+  | succ f ih =>
+    unfold calcPermLoop at h
+    split at h
+    · injection h with h; simp only [Prod.mk.injEq] at h; rw [← h.1]
+    · split at h
+      · cases h
+      · rename_i left _
+        split at h
+        · cases h
+        · rename_i perm' hm
+          rw [ih _ _ perm' h]
+          unfold DMat.mul at hm
+          split at hm
+          · injection hm with hm; rw [← hm]
+          · cases hm
+
+
+end QM.C07
